@@ -16,9 +16,12 @@
   What a transaction "knows the peer announced":
     server side  `t.body.maxApdu / sra / maxSegs` — fixed when the request
                  arrives (`server_record_announced`: the max-APDU code of the
-                 request header decoded, replaced by the cached I-Am value when
-                 that is not smaller; the SA flag; the max-segments code
-                 decoded) and never changed afterwards (`server_record_stable`);
+                 request header decoded — `announced` — or a SMALLER cached
+                 value, never a larger one (fix Tsm-10); the SA flag; the
+                 max-segments code decoded) and never changed afterwards
+                 (`server_record_stable`, `server_announced_stable`);
+                 `response_within_request_limit`: every ComplexAck frame is no
+                 longer than what the request being answered announced;
     client side  `cutMax t.body` = segment size + header of the request kind —
                  equal, whenever the request is (re)cut, to `clientMaxApdu di
                  own`: the peer's I-Am maximum (capped by a known NPDU limit),
@@ -164,6 +167,29 @@ theorem frame_len_bound (hpos : cfg.TimeoutsPos) (es : List Event) (hes : ∀ e 
   have h := cap_run hpos es C11.inv_init CapInv.init hes
   exact (cap_step hpos h.1 h.2 e he).2
 
+/-- **response_within_request_limit.**  In every state reachable by
+    well-formed events, every ComplexAck frame (unsegmented answer or segment)
+    emitted by the next step belongs to a live server transaction with that
+    (peer, invoke ID) and is no longer than `announced` — the maximum APDU
+    length decoded from the header of the REQUEST BEING ANSWERED
+    (`server_record_announced`: set when the request opens the transaction;
+    `server_announced_stable`: never changed) — whatever the device-information
+    cache says about the peer. -/
+theorem response_within_request_limit (hpos : cfg.TimeoutsPos) (es : List Event)
+    (hes : ∀ e ∈ es, EventOk e) (e : Event) (he : EventOk e) :
+    let s := (run cfg Sap.init es).1
+    ∀ p a, Out.send p a ∈ (step cfg s e).2 → a.ty = 3 →
+      ∃ t ∈ s.servers, t.key = ⟨p, a.invokeId⟩ ∧ a.wireLen ≤ t.body.announced ∧
+        50 ≤ t.body.announced := by
+  intro s p a ha h3
+  have h := cap_run hpos es C11.inv_init CapInv.init hes
+  rcases (cap_step hpos h.1 h.2 e he).2 p a ha with hc | h1 | ⟨_, t, ht, hk, hlen, _⟩ | ⟨h0, _⟩
+  · exact absurd h3 hc.2.2.1
+  · omega
+  · have hcap := (h.2.srv t ht).1
+    exact ⟨t, ht, hk, by omega, hcap.2⟩
+  · omega
+
 /-- the smallest maximum APDU a request header can announce is 50: control
     frames (≤ 50 octets) always fit -/
 theorem control_fits {code m : Nat} (h : decodeMaxApdu code = some m) {a : Apdu} (ha : Control a) :
@@ -174,20 +200,34 @@ theorem control_fits {code m : Nat} (h : decodeMaxApdu code = some m) {a : Apdu}
 
 /-! ## what the server transaction holds IS what the peer announced -/
 
-/-- **server_record_announced.**  The transaction a request creates holds:
-    the decoded max-APDU code of the request header — or the peer's cached
-    (I-Am) maximum when that is not smaller —, the SA flag, the decoded
-    max-segments code.  A reserved max-APDU code creates no transaction. -/
+/-- **server_record_announced.**  The transaction a request creates holds
+    as its limit the decoded max-APDU code `m` of the REQUEST header (recorded
+    in the history variable `announced`) — or a smaller value cached for the
+    peer (its I-Am / device object), never a larger one (fix Tsm-10) —, the SA
+    flag and the decoded max-segments code.  A reserved max-APDU code creates no
+    transaction. -/
 theorem server_record_announced {now : Nat} {di : Option DeviceInfo} {k : Key} {b b' : Body}
     {a : Apdu} {outs : List Out} (h : serverIdle cfg now di k b a = (some b', outs)) :
-    ∃ m, decodeMaxApdu a.maxResp = some m ∧
-      (b'.maxApdu = m ∨ ∃ d dm, di = some d ∧ d.maxApdu = some dm ∧ m ≤ dm ∧ b'.maxApdu = dm) ∧
+    ∃ m, decodeMaxApdu a.maxResp = some m ∧ b'.announced = m ∧ b'.maxApdu ≤ m ∧
+      (b'.maxApdu = m ∨ ∃ d dm, di = some d ∧ d.maxApdu = some dm ∧ dm < m ∧ b'.maxApdu = dm) ∧
       b'.sra = a.sa ∧ b'.maxSegs = decodeMaxSegs a.maxSegs := by
-  obtain ⟨_, m, hm, hmax, hsra, hms⟩ := serverIdle_body h
-  refine ⟨m, hm, ?_, hsra, hms⟩
+  obtain ⟨_, m, hm, hmax, hsra, hms, hann⟩ := serverIdle_body h
+  refine ⟨m, hm, hann, by rw [hmax]; exact announcedMax_le di m, ?_, hsra, hms⟩
   rcases announcedMax_cases di m with h1 | ⟨d, dm, h1, h2, h3, h4⟩
   · left; rw [hmax, h1]
   · right; exact ⟨d, dm, h1, h2, h3, by rw [hmax, h4]⟩
+
+/-- the recorded announcement is never changed by a later event of the transaction -/
+theorem server_announced_stable {now : Nat} {npdu : Option Nat} {k : Key} {b b' : Body} {a : Apdu}
+    {outs : List Out} :
+    (serverIndication cfg now k b a = (some b', outs) ∨
+     serverConfirmation cfg now npdu k b a = (some b', outs) ∨
+     serverTimeout cfg now k b = (some b', outs)) →
+    b'.announced = b.announced := by
+  rintro (h | h | h)
+  · exact serverIndication_announced h
+  · exact serverConfirmation_announced h
+  · exact serverTimeout_announced h
 
 /-- **server_record_stable.**  No later event of the transaction (segment,
     abort, application answer, timer) changes what it holds about the peer. -/
@@ -374,6 +414,37 @@ theorem window_used_client {now : Nat} {k : Key} {b b' : Body} {a : Apdu} {outs 
          obtain ⟨rfl, _⟩ := h
          first | rfl | (simp at hst) | (simp_all))
 
+/-- **window_range (every SegmentAck while receiving).**  Whatever segment
+    arrives — in order, out of order, duplicate, stale — every SegmentAck
+    (positive or negative) the receiving side emits carries the negotiated
+    window stored in the transaction, never the local proposal. -/
+theorem window_acks_receiving {now : Nat} {k : Key} {b : Body} {a : Apdu} {w : Nat}
+    (hw : b.window = some w) :
+    (∀ p x, Out.send p x ∈ (serverSegmentedRequest cfg now k b a).2 → x.ty = 4 → x.win = w) ∧
+    (∀ p x, Out.send p x ∈ (clientSegmentedConfirmation cfg now k b a).2 → x.ty = 4 → x.win = w) := by
+  constructor
+  · unfold serverSegmentedRequest
+    simp only [serverAbortBoth, hw]
+    gsplit
+    all_goals
+      intro p x hx h4
+      simp only [List.mem_cons, List.mem_singleton, Out.send.injEq, List.not_mem_nil, or_false,
+        reduceCtorEq, false_or, or_false] at hx
+    all_goals first
+      | (obtain ⟨_, rfl⟩ := hx; first | rfl | (simp [mkAbort] at h4) | omega)
+      | (rcases hx with ⟨_, rfl⟩ | ⟨_, rfl⟩ <;> first | rfl | (simp [mkAbort] at h4) | omega)
+      | (cases hx)
+  · unfold clientSegmentedConfirmation
+    simp only [clientAbortBoth, hw]
+    gsplit
+    all_goals
+      intro p x hx h4
+      simp only [List.mem_cons, List.mem_singleton, Out.send.injEq, List.not_mem_nil, or_false,
+        reduceCtorEq, false_or, or_false] at hx
+    all_goals first
+      | (obtain ⟨_, rfl⟩ := hx; first | rfl | (simp [mkAbort] at h4) | omega)
+      | (rcases hx with ⟨_, rfl⟩ | ⟨_, rfl⟩ <;> first | rfl | (simp [mkAbort] at h4) | omega)
+      | (cases hx)
 /-- **window_range (sender).**  One `fill_window` never puts more segments on
     the wire than the window the receiver granted in its last SegmentAck. -/
 theorem window_in_flight (k : Key) (b : Body) (start : Nat) {w : Nat} (hw : b.window = some w) :
